@@ -424,7 +424,11 @@ def convert_dtype(
     dtype_module = getattr(dtype, "__module__", "")
     if dtype_module.startswith(target_name):
         return dtype
-    if is_torch_namespace(target_xp) and str(dtype).startswith("torch."):
+    if (
+        is_torch_namespace(target_xp)
+        and not isinstance(dtype, str)
+        and str(dtype).startswith("torch.")
+    ):
         return dtype
 
     name = _dtype_to_name(dtype)
